@@ -2,7 +2,10 @@
 """Run the checks named in a wave-4 mutant's meta.json (property + also_breaks) against that mutant."""
 import json, os, re, subprocess, sys
 root = "/tmp/mut4"
-for fid in sys.argv[1:]:
+args = sys.argv[1:]
+if args and args[0] == "--root":
+    root, args = args[1], args[2:]
+for fid in args:
     for i in (1, 2, 3):
         d = f"{root}/{fid}/out"
         diff, meta = f"{d}/m{i}.diff", f"{d}/m{i}_meta.json"
